@@ -1,57 +1,3 @@
-// Kani harness for expr/src/window_state.rs (property C09, GROUPS frames), BOUNDED: the real
-// WindowFrameStateGroups::calculate_range on one concrete ORDER BY column [1,1,2,3,3] (three peer
-// groups), every row, every bound kind, offsets over the FULL u64 domain.
+// (no registered harnesses: matching on WindowFrameBound makes kani-compiler 0.68 panic at rvalue.rs:1009; see /verif/attempts)
 #[allow(unused_qualifications, unused_imports, dead_code, clippy::all)]
-mod verif_kani {
-    use super::*;
-    use arrow::array::UInt64Array;
-
-    fn any_bound(allow_unbounded_preceding: bool, allow_unbounded_following: bool) -> (WindowFrameBound, i128) {
-        // returns the bound and its group offset relative to the current group (i128::MIN / MAX = unbounded)
-        let n: u64 = kani::any();
-        match kani::any::<u8>() % 5 {
-            0 => (WindowFrameBound::CurrentRow, 0),
-            1 => (WindowFrameBound::Preceding(ScalarValue::UInt64(Some(n))), -(n as i128)),
-            2 => (WindowFrameBound::Following(ScalarValue::UInt64(Some(n))), n as i128),
-            3 if allow_unbounded_preceding => (WindowFrameBound::Preceding(ScalarValue::UInt64(None)), i128::MIN),
-            4 if allow_unbounded_following => (WindowFrameBound::Following(ScalarValue::UInt64(None)), i128::MAX),
-            _ => (WindowFrameBound::CurrentRow, 0),
-        }
-    }
-
-    #[kani::proof]
-    #[kani::unwind(8)]
-    fn c09_groups_frame_bounded() {
-        // peer groups of the ORDER BY column: rows 0..2 (group 0), 2..3 (group 1), 3..5 (group 2)
-        const STARTS: [usize; 3] = [0, 2, 3];
-        const ENDS: [usize; 3] = [2, 3, 5];
-        let col: ArrayRef = Arc::new(UInt64Array::from(vec![1u64, 1, 2, 3, 3]));
-        let cols = [col];
-        let (sb, so) = any_bound(true, false);
-        let (eb, eo) = any_bound(false, true);
-        let frame = Arc::new(WindowFrame::new_bounds(WindowFrameUnits::Groups, sb, eb));
-        let idx: usize = kani::any();
-        kani::assume(idx < 5);
-        let g: i128 = if idx < 2 { 0 } else if idx < 3 { 1 } else { 2 };
-        let mut st = WindowFrameStateGroups::default();
-        let res = st.calculate_range(&frame, &cols, 5, idx);
-        // definition: the frame consists of the peer groups g+so ..= g+eo (clamped to the partition)
-        let first = if so == i128::MIN { 0 } else { g + so };
-        let last = if eo == i128::MAX { 2 } else { g + eo };
-        let exp_start = if first <= 0 { 0 } else if first > 2 { 5 } else { STARTS[first as usize] };
-        let exp_end = if last < 0 { 0 } else if last >= 2 { 5 } else { ENDS[last as usize] };
-        match &res {
-            Ok(r) => {
-                assert!(r.start == exp_start, "C09.groups.frame_start_is_first_row_of_the_start_group");
-                assert!(r.end == exp_end, "C09.groups.frame_end_is_one_past_the_last_row_of_the_end_group");
-            }
-            Err(_) => assert!(false, "C09.groups.no_error_for_uint64_offsets"),
-        }
-        kani::cover!(idx == 2 && so == -1 && eo == 1);
-        kani::cover!(eo > 1000);
-        std::mem::forget(res);
-        std::mem::forget(st);
-        std::mem::forget(frame);
-        std::mem::forget(cols);
-    }
-}
+mod verif_kani {}
